@@ -286,6 +286,9 @@ func sourceForFork(src MapCallSource, fork map[*CallStm]CollectionIndex,
 			return src, err
 		} else if ss, ok := se.(MapCallSource); ok {
 			return ss, nil
+		} else if _, ok := se.(*DisabledExp); ok {
+			// Whether there is a source at all is only known at run time.
+			return src, nil
 		} else {
 			return src, fmt.Errorf("source fork %s did not resolve to a source",
 				se.GoString())
